@@ -27,7 +27,7 @@ ToksOf(r) == [i \in DOMAIN r.toks |-> TokOf(r.toks[i])]
 
 RECURSIVE Join(_, _)
 Join(ss, sep) == IF ss = <<>> THEN "" ELSE IF Len(ss) = 1 THEN ss[1] ELSE ss[1] \o sep \o Join(Tail(ss), sep)
-TermStr(t) == Join(W!ExprSeq(t), ":")
+TermStr(t) == Join(W!ExprSeq(t), " & ")      \* injective as long as no factor expression contains " & "
 TermsStr(ts) == IF ts = <<>> THEN "{}" ELSE Join([i \in DOMAIN ts |-> TermStr(ts[i])], " + ")
 PartsStr(ps) == Join([i \in DOMAIN ps |-> TermsStr(ps[i])], " | ")
 ResStr(res) == CASE res.st = "REJECT" -> "R" [] res.st = "UNMODELLED" -> "U"
